@@ -115,7 +115,7 @@ class C05(Engine):
 		'at least one state-changing op (edit of content, clear, lost file, fault) between two judged runs')
 	quick_runs = 70
 	thorough_runs = 2500
-	quick_budget_s = 90.0
+	quick_budget_s = 70.0
 	thorough_budget_s = 1700.0
 	components_real = ['Runner', 'CacheProvider/CachedProxy/CachedDummy', 'SyntaxParserOfLark + Lark pickle save/load', 'SymbolDBPersistor', 'RestoreSymbols/StoreSymbols and the other preprocessors', 'FileLoader', 'Module.identity', 'Py2Cpp + Jinja renderer', 'Writer', 'real file system (tmpfs)']
 	components_stubbed = Engine.components_stubbed + ['builtins.open / os.unlink / os.makedirs / time.sleep interposed (trace + injected faults)', 'mtimes assigned by the simulated clock (os.utime)']
@@ -189,6 +189,11 @@ class C05(Engine):
 				# exchange the contents of two sibling modules that one importer imports both (identity must not be a multiset of hashes)
 				c([op_run(), {'op': 'edit', 'm': 'src.sb', 'v': 1, 'dt': 10**9}, {'op': 'edit', 'm': 'src.sc', 'v': 0, 'dt': 10**9}, op_run()])
 				c([op_run(), {'op': 'edit', 'm': 'src.sb', 'v': 2, 'dt': 10**9}, op_run(), {'op': 'edit', 'm': 'src.sc', 'v': 2, 'dt': 10**9}, {'op': 'edit', 'm': 'src.sb', 'v': 1, 'dt': 10**9}, op_run()])
+		# prefix-related sibling modules that do not import each other, the longer-named one loaded first (src.ab before src.a)
+		rngp = random.Random(9)
+		fan = pools.gen_pool(rngp, shape='fan', n_variants=3, allow_invalid=False, names=['src.d', 'src.ab', 'src.a', 'src.a_b'], swap_p=0.0)
+		for victim in ('src.ab', 'src.a_b', 'src.a'):
+			cases.append({'pool': fan, 'kind': 'canonical', 'ops': [op_run(), {'op': 'edit', 'm': victim, 'v': 1, 'dt': 10**9}, op_run(), {'op': 'edit', 'm': victim, 'v': 2, 'dt': 10**9}, op_run()]})
 		ex = pools.example_pool()
 		cases.append({'pool': ex, 'kind': 'canonical', 'ops': [op_run(), op_run(), {'op': 'edit', 'm': 'example.FW.string', 'v': 1, 'dt': 10**9}, op_run(), op_run(enabled=False)]})
 		cases.append({'pool': ex, 'kind': 'canonical', 'ops': [op_run(fault={'kind': 'crash@write', 'pick': 0.95, 'prefer': 'symbols', 'kmode': 'half'}), op_run(), {'op': 'clear'}, op_run()]})
